@@ -564,6 +564,20 @@ def step (s : Unit) (ts : List String) : Unit × List String :=
           | some e => " | " ++ rExt e
           | none => " | other")])
     | none => (s, ["bad-op"])
+  | ["x6dec", h] =>
+    match unhex h with
+    | some b =>
+      match WireExt.decIp6Ext b with
+      | some e => (s, [s!"ok {rIp6 e}"])
+      | none => (s, ["err"])
+    | none => (s, ["bad-op"])
+  | ["x6decs", h] =>
+    match unhex h with
+    | some b =>
+      match WireExt.decIp6Exts b with
+      | none => (s, ["err"])
+      | some l => (s, [s!"ok {l.length}" ++ String.join (l.map fun e => " | " ++ rIp6 e)])
+    | none => (s, ["bad-op"])
   | "tpath" :: rest =>
     match pTPath rest with
     | some (vrf, del, u) =>
